@@ -47,6 +47,18 @@ def generate(rng, tier):
     if rng.random() < 0.08:
         sc["ops"] = [o for o in sc["ops"] if not scen.is_cmd(o)]  # no history at all
     sc["probe_seed"] = rng.getrandbits(30)
+    if rng.random() < 0.1:
+        tree = sc["world"]["tree"]
+        parent = rng.choice([""] + gen.tree_dirs(tree))
+        pre = parent + "/" if parent else ""
+        a, b = rng.choice([("Caf\u00e9.mov", "Cafe\u0301.mov"), ("\u00c5.dat", "\u212b.dat")])
+        tree[pre + a] = {"t": "f", "c": gen.unique_content(rng)}
+        tree[pre + b] = {"t": "f", "c": gen.unique_content(rng)}
+        fm = gen.fmt_args(gen.pick_formats(rng, 1, 2))
+        sc["ops"] += [scen.cmd("create", "@R", *fm), {"op": "advance", "us": 1_000_000},
+                      scen.cmd("create", "@R", *fm, "-sf", "@R/" + pre + rng.choice([a, b])), {"op": "advance", "us": 1_000_000},
+                      scen.cmd("create", "@R", *fm)]
+        sc["must_probe"] = [pre + a, pre + b]
     if rng.random() < 0.25:
         sc["world"]["process_model"] = "session"
         # ask for files early as well, so that a later nested history changes the right answer
@@ -151,6 +163,7 @@ def execute(sc, ctx):
             allfiles.append(os.path.join(d, f))
     allfiles.sort()
     picks = sorted(allfiles, key=lambda p: core.h64(sc["probe_seed"], os.path.relpath(p, w.root)))[:3]
+    picks += [w.abspath(p_) for p_ in sc.get("must_probe", []) if os.path.isfile(w.abspath(p_)) and w.abspath(p_) not in picks]
     for fp in picks:
         r = w.run_cmd(["info", "-sf", fp], cwd=w.mount)
         ctx.evaluations += 1
